@@ -206,6 +206,28 @@ def _many_conflicts(concepts):
 ITEMS['many_conflicts'] = _many_conflicts
 
 
+def _sparse_conflicts(concepts):
+    """large shared grid, few differing cells, several of them conflicts (on every axis position class)"""
+    objs = ['o%s' % c for c in 'hgfedcba']
+    props = ['p%s' % c for c in 'stuvwxyz']
+    t = [[(i * 3 + j * 5) % 7 < 3 for j in range(8)] for i in range(8)]
+    u = [list(r) for r in t]
+    for i, j in ((6, 1), (1, 6), (3, 3), (0, 7)):
+        u[i][j] = not u[i][j]
+    out = []
+    for k in (8, 5):
+        a = concepts.Definition(objs[:k], props[:k], [r[:k] for r in t[:k]])
+        b = concepts.Definition(list(reversed(objs[:k])), props[:k], [r[:k] for r in reversed(u[:k])])
+        for f in (lambda: a.union(b), lambda: a.intersection(b), lambda: b | a, lambda: b & a,
+                  lambda: a.union_update(b), lambda: b.intersection_update(a)):
+            out.append(_exc(lambda: _snap(f()) if f() is not None else None))
+        out += _snap(a) + _snap(b)
+    return out
+
+
+ITEMS['sparse_conflicts'] = _sparse_conflicts
+
+
 def _argument_forms(concepts):
     """the same names handed over in different (deterministic) container types: insertion-ordered dict views, dicts,
     tuples, generators, strings"""
